@@ -455,6 +455,11 @@ pub fn run(tier: Tier) -> i32 {
             }
         });
     }
+    // (c) constants supplied from outside: whatever literal is accepted for a constant, the circuit has
+    // the shape the declared types give it (the menu and its oracles are C12's)
+    let supplied_cases = AtomicU64::new(0);
+    let supplied_evals = AtomicU64::new(0);
+    crate::props::c12::supplied_value_menu(&supplied_cases, &supplied_evals, &coll);
     // (a) all fully annotated programs of the other families
     let (fjobs, plan) = c01::family_jobs(tier, &["E-small", "S", "P", "D"]);
     let fr = c01::run_jobs(fjobs, c01::attribution_for, &budget, plan);
@@ -468,6 +473,7 @@ pub fn run(tier: Tier) -> i32 {
         coverage: json!({
             "evaluations": cnt.programs.load(Ordering::Relaxed) + fr.counters.get("programs"),
             "distinct_nontrivial": cnt.accepted.load(Ordering::Relaxed) + fr.counters.get("nontrivial_programs"),
+            "supplied_constant_cases(10 constant types x boundary literals of every number type, see C12)": supplied_cases.load(Ordering::Relaxed),
             "rule": "family I: 50 templates, one per path by which an integer literal meets its type (operand either side, nested, through let / let mut / annotated let / destructuring / arrays / repeat / tuples / struct and enum fields / fn arguments / return / if branches / match patterns and arms / block tail / ranges / indices / shift amounts / casts / assignments / negative and out-of-range values), each literal position suffixed or unsuffixed in EVERY subset, for all 9 integer types; plus zero-sized and single-array-parameter programs; an accepted program must compile every pub fn without panic to a circuit that validates, has one party per parameter (per element for a single array parameter) of size(type) bits and 161 + size(return type) outputs that decode; fully suffixed in-range instances must be accepted; every accepted variant with unsuffixed literals must compute the same outputs as the fully suffixed program of its group on 6 input patterns (reported under C01); (a) every program of families E, S, P, D must be accepted and well-shaped; distinct_nontrivial = accepted family-I programs + family programs with >=2 distinct outputs",
             "suffix_variant_pairs_compared_with_fully_suffixed_program": diff_pairs,
             "suffix_variant_evaluations": diff_evals,
